@@ -49,12 +49,12 @@ CLAIMED.update({
             "Residual assumptions: parametricity meta-argument; extraction rules R8-R12 (lambda lifting of the get_time closure, enumerate/zip loops desugared to while loops, three iterator expressions abstracted behind Kani-proved contracts, push arguments let-bound). unique/earliest/latest: bounded probe only. "),
 })
 
-SEARCH_NOTE = ("Scope of the proof: zones without a DST rule. For zones with a DST (Alternate) rule only the list abstraction and the C14 invariant of find_date_time are proved; their results are decided by BOUNDED layers only (never counted as proved): thorough tier Kani/CBMC on the real find_date_time (<= 3 transitions without / <= 2 with one leap-second record; rule-only zone with six symbolic interleaving instants) and, every tier, a bounded concrete oracle comparison through the public API. Open known findings F3 (C05: non-interleaving accepted rule yields a duplicate result) and F4 (C06: zero-length segment, e.g. permanent DST, reported as a gap) - both in the DST-rule branch - are carved out of the probes and replayed on every run. "
+SEARCH_NOTE = ("Scope of the proof: every zone without a DST rule, and zones with a DST (Alternate) rule inside rule_scope = the rule's start/end instants strictly interleave in every year AND both candidate instants lie inside the rule evaluator's year range. Outside rule_scope (exactly the territory of the open findings below) only BOUNDED layers speak (never counted as proved); they also run as a second layer everywhere: thorough tier Kani/CBMC on the real find_date_time (<= 3 transitions without / <= 2 with one leap-second record; rule-only zone with six symbolic interleaving instants) and, every tier, a bounded concrete oracle comparison through the public API. Open known findings F3 (C05: non-interleaving accepted rule yields a duplicate result) and F4 (C06: zero-length segment, e.g. permanent DST, reported as a gap) - both in the DST-rule branch - are carved out of the probes and replayed on every run. "
                "Trusted in addition: extraction rules R8-R12 (lambda lifting of the get_time closure, enumerate/zip loops desugared to while loops, three iterator expressions abstracted behind contracts proved by complete Kani harnesses, push arguments let-bound); Kani 0.68 / CBMC 6.11; the parametricity argument of C17 (the ghost log is the result list of both list types). ")
-SEARCH_TECH = "contract-based deductive verification (Verus/Z3) of the real find_date_time, extracted mechanically on every run (zones without DST rule); bounded model checking (Kani/CBMC) and bounded oracle comparison as stand-in for zones with a DST rule"
+SEARCH_TECH = "contract-based deductive verification (Verus/Z3) of the real find_date_time, extracted mechanically on every run (zones without DST rule); bounded model checking (Kani/CBMC) and bounded oracle comparison as second layer and as stand-in outside the proof's scope"
 CLAIMED.update({
-    "C05": ("proof", "PROOF for every zone without a DST rule (single type, table only, table + fixed rule, fixed rule only; any table length, any leap-second table, arbitrary offsets), for every searched date-time: the real find_date_time's pushed results are sound (each valid result carries the searched fields, the forward lookup - C03's relational spec - answers its type at its instant, instant + offset = searched civil time), free of duplicates, and complete whenever the search returns Ok (every instant whose lookup answer shows the searched time is reported). BOUNDED stand-in only for zones with a DST rule.", "S.13", SEARCH_NOTE, SEARCH_TECH),
-    "C06": ("proof", "PROOF for every zone without a DST rule, for every searched date-time: each skipped result of the real find_date_time is the gap of a real table transition (both date-times at the transition's UTC instant g(T), with the local time types before / after, C14 invariant, g(T)+a <= searched time < g(T)+b; the coverage-ending last transition of a rule-less zone opens no gap), every such gap is reported when the search returns Ok, and all results ascend by instant. Not proved: 'exactly once' and earliest/latest/unique themselves (bounded probe). BOUNDED stand-in only for zones with a DST rule.", "S.13", SEARCH_NOTE, SEARCH_TECH),
+    "C05": ("proof", "PROOF for every zone without a DST rule (single type, table only, table + fixed rule, fixed rule only; any table length, any leap-second table, arbitrary offsets) and for every zone with a strictly interleaving DST rule (with or without table; candidates inside the evaluator's year range), for every searched date-time: the real find_date_time's pushed results are sound (each valid result carries the searched fields, the forward lookup - C03's relational spec - answers its type at its instant, instant + offset = searched civil time), free of duplicates, and complete whenever the search returns Ok (every instant whose lookup answer shows the searched time is reported). BOUNDED layers only for DST rules outside that scope (known findings F3, F5; F2's class).", "S.13", SEARCH_NOTE, SEARCH_TECH),
+    "C06": ("proof", "PROOF for every zone without a DST rule and for zones with a strictly interleaving DST rule, for every searched date-time: each skipped result of the real find_date_time is the gap of a real table transition (both date-times at the transition's UTC instant g(T), with the local time types before / after, C14 invariant, g(T)+a <= searched time < g(T)+b; the coverage-ending last transition of a rule-less zone opens no gap) or, in a DST-rule zone, of a start/end instant of the rule after the table; every such gap (for rule instants: of the years y-1..y+1 the search looks at) is reported when the search returns Ok, and all results ascend by instant; unique/earliest/latest of the allocating list are under contract too (unique present exactly for a single valid result and nothing else). Not proved: 'exactly once'; that no rule instant of a year outside y-1..y+1 can hold the searched time in its gap (window argument, not formalised); unique/earliest/latest of the allocation-free list (bounded probe). BOUNDED layers only for DST rules outside the scope (known finding F4).", "S.13", SEARCH_NOTE, SEARCH_TECH),
 })
 
 
